@@ -202,7 +202,7 @@ func VerifH15cRedirectHandler() {
 	if verifrt.Bool("withport") {
 		rawHost += ":80"
 	}
-	pn := verifrt.IntRange("plen", 0, 2)
+	pn := verifrt.IntRange("plen", 0, 2+2*verifrt.Tier())
 	p := "/" + verifrt.String("p", pn)
 	for i := 1; i < len(p); i++ {
 		c := p[i]
